@@ -18,7 +18,7 @@ LEVEL_TEXT = ('The property\'s own reformulation ("the starting vectors at two r
 LEVEL_NOTE = ('Trusted: Cython-subset front-end, interpreter, symbolic differentiation, the recurrences of spherical Bessel functions used as differential rules, exact linear algebra in GF(p^2) '
               '(rank at K random points; a rank deficiency is missed with probability < 1e-15). Not decided: the numerical independence of the integrated result from r0 (needs the integration).')
 EXPLANATION = ('R04.1 span flow-invariance per starting function; R04.2 Taylor branch of z and the phi/psi series == Bessel series through the order written; '
-               'R04.3 every stored component reads only components of its own solution; R04.4 driver dispatch and argument binding.')
+               'R04.3 every stored component reads only components of its own solution; R04.4 driver dispatch and argument binding; R04.8 the solver hands the starting-condition driver the flags and material values of the innermost slice, the frequency / degree / G of the solve and the requested family.')
 
 # (function name, module file, kind, static, incompressible, number of solutions, parameter list)
 FUNCS = [
@@ -174,6 +174,8 @@ def run(chk):
     legacy_solver.initial_dispatch(chk, repo, X.Decider(seed=chk.seed, k=2), 'R04.5')
     series_tables(chk, repo)
     driver(chk, repo)
+    from . import solver_whole as SW
+    SW.guarded(chk, 'C04', lambda: SW.starting_arguments(chk, repo, 'R04.8'))
     chk.floor('R04.7', 3); chk.floor('R04.5', 10); chk.floor('R04.6', 6); chk.floor('R04.1', 18); chk.floor('R04.2', 15); chk.floor('R04.3', 18); chk.floor('R04.4', 12)
     chk.assume('homogeneous sphere: g(r) = (4 pi G rho / 3) r; all material values positive, shear modulus complex')
 
